@@ -266,7 +266,10 @@ fn load_render_problem(tag: &str, r: &Result<digital_test_runner::TestCase, Load
     let Err(LoadTestError::ParseError(e)) = r else { return None };
     let sc = e.source_code()?;
     for l in e.labels()? {
-        if sc.read_span(l.inner(), 0, 0).is_err() {
+        // (miette itself may panic on a span behind the end of the text: that is the same failure)
+        let readable = catch_unwind(AssertUnwindSafe(|| sc.read_span(l.inner(), 0, 0).is_ok())).unwrap_or(false);
+        if !readable {
+            let _ = imp::take_panic();
             return Some(format!("# render {tag} the location {}..{} cannot be read in the source attached to the error", l.offset(), l.offset() + l.len()));
         }
     }
